@@ -21,3 +21,13 @@ func verifBeforeLock(mu *sync.RWMutex, write bool, site string) {
 		f(mu, write, site)
 	}
 }
+
+// VerifFetcherLock is set by the simulation harness; nil means no-op. It is told which mutex
+// guards the state of a new Fetcher (the harness only ever probes it with TryLock).
+var VerifFetcherLock func(mu *sync.RWMutex)
+
+func verifFetcherLock(mu *sync.RWMutex) {
+	if f := VerifFetcherLock; f != nil {
+		f(mu)
+	}
+}
